@@ -5,7 +5,7 @@ from vlib import core, mapgen, pkgrun
 
 PROP = "C15"
 LEAN_MODULES = ["ShootVerif.Props.C15"]
-USES_FACTS = False
+USES_FACTS = True
 DRIVER = "shootmodel_map"
 
 MANIFEST = dict(
@@ -133,6 +133,23 @@ def shaped(g, rng):
         pl = [mapgen.F("Settings", mapgen.STR), mapgen.F("Setup", mapgen.INT), mapgen.F("Up", mapgen.INT), mapgen.F("Settled", mapgen.STR)]
         sp = mapgen.mk_spec(pl, ms, dest_kind="new") if sd == "dest" else mapgen.mk_spec(ms, pl, src_kind="new")
         out.append(("getter-named-set-" + sd, sp))
+    # unmatched constructor parameters of NIL-ABLE types - named slice / map / array / pointer / func / chan and their unnamed
+    # forms (seeded change C15-13 writes `Tags{}` for a named slice or map): the zero literal is nil, observed through reflection
+    for sides in (("dest",), ("src",), ("src", "dest"), ("dest",)):
+        sp = g.pair(**dict(BASE, names=["ident"], kinds=["same", "conv"], n=(3, 4), extra=1.0, nilable=1.0, func_over=0.0, mapper_idle=0.0,
+                           flags={"way": "both"}))
+        for sd in sides:
+            mapgen.to_new(rng, sp, sd, setonly=0.0, getonly=0.4, newmark=0.0)
+        out.append(("nilable-unmatched-ctor-param-" + "+".join(sides), sp))
+    # multi-type run, the companion (with a mapper whose signatures are those of the observed type's pairs) FIRST, the observed
+    # type mapper-less with a shoot-new destination (seeded change C15-14 keeps an index of mapper methods across types): the
+    # constructor arguments must not go through the companion's methods
+    for dis in (1.0, 0.0, 1.0, 0.0):
+        sp = g.pair(**dict(BASE, names=["ident"], kinds=["same", "conv", "funconly"], n=(4, 6), func_over=0.0, mapper_idle=0.0,
+                           flags={"way": "both" if dis else "to"}))
+        sp["mapper"] = None
+        mapgen.to_new(rng, sp, "dest", setonly=0.0, getonly=0.5, newmark=0.0)
+        out.append(("companion-before-new-dest", mapgen.add_companion(rng, sp, disabled=dis)))
     return out
 
 
